@@ -163,3 +163,52 @@ def main(rest):
         with open(os.path.join(VERIF_DIR, "seeded", "RESULTS.json"), "w") as fh:
             json.dump({"results": results}, fh, indent=1)
     return 1 if bad else 0
+
+
+def main_benign(rest):
+    """
+    run.py selftest benign [<id> ...] [--scale=N]
+    Behaviour-preserving refactorings under /verif/benign/<id>/patch.diff: every check must stay silent.
+    """
+    import importlib
+
+    scale = 3
+    ids = []
+    for r in rest:
+        if r.startswith("--scale="):
+            scale = int(r.split("=", 1)[1])
+        elif not r.startswith("--"):
+            ids.append(r)
+    results = {}
+    path = os.path.join(VERIF_DIR, "benign", "RESULTS.json")
+    if os.path.exists(path) and ids:
+        results = json.load(open(path))
+    alarms = 0
+    for ppath in sorted(glob.glob(os.path.join(VERIF_DIR, "benign", "*", "patch.diff"))):
+        bid = os.path.basename(os.path.dirname(ppath))
+        if ids and bid not in ids:
+            continue
+        scratch = make_scratch(ppath)
+        row = {"tests": None, "alarms": {}}
+        try:
+            code, out = sh([PY, "-m", "pytest", "-q", "-p", "no:cacheprovider", "-x"], scratch)
+            row["tests"] = code
+            for i in range(1, 21):
+                pid = "C%02d" % i
+                mod = importlib.import_module("aslsim.checks." + pid.lower())
+                runs = max(300, mod.BUDGET["quick"] // scale)
+                code, text = sh([PY, os.path.join(VERIF_DIR, "run.py"), "check", pid, "--runs", str(runs), "--no-evidence"],
+                                VERIF_DIR, {"VERIF_REPO": scratch}, timeout=3000)
+                if code != 0:
+                    row["alarms"][pid] = [l for l in text.splitlines() if l.startswith(("violated clause", "VIOLATION", "HARNESS"))][:4]
+        finally:
+            shutil.rmtree(scratch, ignore_errors=True)
+        results[bid] = row
+        alarms += len(row["alarms"])
+        print("benign %-40s tests=%s alarms=%s" % (bid, "pass" if row["tests"] == 0 else "FAIL", sorted(row["alarms"]) or "none"))
+        for pid, lines in row["alarms"].items():
+            for l in lines[:2]:
+                print("    %s %s" % (pid, l[:400]))
+        with open(path, "w") as fh:
+            json.dump(results, fh, indent=1, sort_keys=True)
+    return 1 if alarms else 0
